@@ -12,11 +12,13 @@ def main(tier):
     followers = [0x04, 0x3e, 0x00, 0xc5, 0x76, 0x18, 0xcd, 0xe0] if tier == 'quick' else BASE_OPS
     jobs = [('cpu', 'VerifHaltIdle', {}), ('cpu', 'VerifHaltWake', {}), ('cpu', 'VerifInstr', {'op': 0x76, 'cb': 0})]
     jobs += [('cpu', 'VerifInstrHaltBug', {'op': o, 'cb': 0}) for o in followers]
+    # follower = CB prefix: the prefix byte itself is read twice (CB CB is executed), whatever the byte after it
+    jobs += [('cpu', 'VerifInstrHaltBug', {'op': o, 'cb': 1}) for o in ([0x37, 0xcb] if tier == 'quick' else range(0, 256, 5))]
     ck.bounds = {'idle': 'one machine cycle from every halted state with nothing pending (inductive: covers every idle length)',
                  'wake': 'every IE x IF with something pending, both master-enable values, every register/memory value',
                  'enter': 'HALT executed from every IME x pending combination in which no dispatch is due (VerifInstr op 0x76)',
-                 'halt-bug': 'follower opcodes: %s' % ('8 representative opcodes' if tier == 'quick' else 'all 245 non-prefixed opcodes'),
-                 'outside': 'CB-prefixed follower of the halt bug; halt_bug.gb / halt_ime* ROMs; number of cycles of the wake-up is asserted as the tree has it (1)'}
+                 'halt-bug': 'follower opcodes: %s' % ('8 representative opcodes' if tier == 'quick' else 'all 245 non-prefixed opcodes') + '; and the CB prefix as follower',
+                 'outside': 'halt_bug.gb / halt_ime* ROMs; number of cycles of the wake-up is asserted as the tree has it (1)'}
     ck.run(jobs, only=ONLY)
     ck.finish(explanation='HALT: idle self-loop lemma, wake-up with and without dispatch, entry for all IME x pending, and the halt bug (follower executed with PC not advanced) against the reference SM83')
 
